@@ -20,6 +20,23 @@ identity = ec.eng_identity
 shrink_candidates = ec.eng_shrink
 
 
+def rec_case(c):
+    ents = core.clist(["{| re_cmd_lc := %s; re_desc_lc := %s |}" % (core.cbytes(bytes(e["cmd_lc"] or [])), core.cbytes(bytes(e["desc_lc"] or []))) for e in (c.get("entries") or [])])
+    return "{| y_db := %s; y_qlc := %s; y_err := %s; y_panic := %s; y_res := %s |}" % (
+        ents, core.cbytes(bytes(c.get("q_lc") or [])), core.cbool(c.get("err", False)), core.cbool(bool(c.get("panic"))), ec.cres(c.get("res")))
+
+
+FAMILIES = {"rec": dict(
+    HARNESS="c01rec", N={"quick": 300, "thorough": 4000}, SHARD=50, CASE_TYPE="reccase", CHECK_FN="check_cases",
+    HEADER="From Coq Require Import List String ZArith NArith Bool Floats.\nFrom WTF Require Import Model.Validate Model.Text Model.Engine Model.Recovery Check.Render Check.EngineTypes Check.C01Rec.\nImport ListNotations.\n",
+    coq_case=rec_case,
+    identity=lambda c: [c["db"], c["q"]],
+    sample=lambda c: {"family": "recovery", "query": bytes(c["q"] or []).decode("utf-8", "replace"), "database_size": len(c.get("db") or []),
+                      "results": [(r["doc"], r["score"]) for r in (c.get("res") or [])[:5]], "error": c.get("err")},
+    shrink_candidates=lambda c: [dict(c, db=c["db"][:i] + c["db"][i + 1:]) for i in range(len(c["db"]))][:40] if len(c.get("db") or []) > 1 else [],
+)}
+
+
 def keep(c):
     return not c.get("note")
 
@@ -27,6 +44,6 @@ def keep(c):
 def finding_key(c, r):
     return None
 
-LEVEL_TEXT = "Theorems (Props/C01.v) for every database, query, option record, idf function, fuzzy-matcher outcome and NLP analysis on Model/Engine.v: the answer of SearchUniversal has no entry twice, at most the limit in force (default 10), only entries of the database that pass the filters; the index/NLP path is ordered by non-increasing score (binary64 comparison), the typo fallback by raw match quality. The model is compared bit for bit with the real engine on every generated case (7 runs per case), and the property's predicate (limit, membership, duplicates, finite non-negative scores, order) is evaluated in Coq on the real answers of SearchUniversal, the cached layer, the legacy pipeline search and Search."
-LEVEL_NOTE = "Trusted: Coq kernel + vm_compute; FloatAxioms (ltb_spec etc., standard library) for the ordering theorem; oracles from the real code per case (math.Log idf, NLP multipliers, TF-IDF ranking, raw fuzzy scores). 'finite, non-negative' is checked per case on model and code, not proved (no float range laws); the legacy pipeline search and the CLI recovery search are covered by the predicate only (the latter in C17)."
+LEVEL_TEXT = "Theorems (Props/C01.v): the recovery search (Model/Recovery.v, three substring strategies) returns no entry twice, only entries of the database, one finite non-negative score; and for every database, query, option record, idf function, fuzzy-matcher outcome and NLP analysis on Model/Engine.v: the answer of SearchUniversal has no entry twice, at most the limit in force (default 10), only entries of the database that pass the filters; the index/NLP path is ordered by non-increasing score (binary64 comparison), the typo fallback by raw match quality. The model is compared bit for bit with the real engine on every generated case (7 runs per case), and the property's predicate (limit, membership, duplicates, finite non-negative scores, order) is evaluated in Coq on the real answers of SearchUniversal, the cached layer, the legacy pipeline search and Search."
+LEVEL_NOTE = "Trusted: Coq kernel + vm_compute; FloatAxioms (ltb_spec etc., standard library) for the ordering theorem; oracles from the real code per case (math.Log idf, NLP multipliers, TF-IDF ranking, raw fuzzy scores). 'finite, non-negative' is checked per case on model and code, not proved (no float range laws); the legacy pipeline search is covered by the predicate only; Unicode lower-casing of the query is an oracle of the recovery model."
 TECHNIQUE = "Coq proof over the engine model + differential correspondence (vm_compute, bit-exact scores)"
